@@ -105,6 +105,7 @@ structure EState where
   scanId : Nat := 0
   statuses : List StatusRec := []
   groups : List (String × List Nat) := []    -- group ↦ status ids
+  waiting : List Nat := []                   -- the futures popped from `_groups` by the `wait` in progress
   pendingCompl : List Nat := []              -- finished statuses whose loop callback has not run yet
   pardon : Bool := false
   futs : List Nat := []                      -- released futures (suspender events that are set)
@@ -308,9 +309,9 @@ inductive CmdOut where
   | raised (e : Exc)
   | suspend (pc : PC)
 
-def groupReady (s : EState) (g : String) : Bool × Bool :=
-  -- (no future pending, some future failed)
-  let ids := (assocGet g s.groups).getD []
+def groupReady (s : EState) (_g : String) : Bool × Bool :=
+  -- (no future pending, some future failed) over the futures the running `wait` popped from `_groups`
+  let ids := s.waiting
   let recs := ids.filterMap (fun k => s.statuses[k]?)
   (recs.all (·.futDone), recs.any (·.futExc))
 
@@ -452,7 +453,9 @@ def cmdWait (s : EState) (m : Msg) : EState × CmdOut :=
   match assocGet g s.groups with
   | none => (s, .value (.bool true))
   | some [] => ({ s with groups := assocErase g s.groups }, .value (.bool true))
-  | some _ => (s, .suspend (.inWait g))
+  | some ids =>
+    -- `futs = self._groups.pop(group)`: a cancelled wait does not put them back
+    ({ s with groups := assocErase g s.groups, waiting := ids }, .suspend (.inWait g))
 
 def cmdStage (s : EState) (m : Msg) (op : String) : EState × CmdOut :=
   let n := m.obj.getD ""
@@ -762,8 +765,10 @@ def advanceAt (fuel : Nat) (cancel : Bool) (s : EState) : EState :=
   | .inWait g =>
     if cancel then contFlow fuel (hCancel s .none) else
     let (allDone, anyExc) := groupReady s g
-    if allDone then runLoop fuel (fin { s with groups := assocErase g s.groups } (.bool true))
-    else if anyExc then runLoop fuel (fin s (.exc .waitForTimeout))
+    if allDone then runLoop fuel (fin s (.bool true))
+    else if anyExc then
+      -- WaitForTimeoutError: the futures are put back under the group key
+      runLoop fuel (fin { s with groups := assocSet g s.waiting s.groups } (.exc .waitForTimeout))
     else s
   | .inWaitFor f =>
     if cancel then contFlow fuel (hCancel s .none) else
